@@ -65,6 +65,7 @@ fn reader_verdict_raw(chain: &[u64], unk: &[bool], tag: u64, is_master: bool, ty
                 _ => { return if starts == chain.len() && t.id == tag { ("ok".into(), idw(t.id)) } else { ("na".into(), json!([])) }; }
             },
             Some(Err(TagIteratorError::CorruptedFileData(CorruptedFileError::HierarchyError { found_tag_id, .. }))) => {
+
                 return if starts == chain.len() { ("hier".into(), idw(found_tag_id)) } else { ("na".into(), json!([])) };
             }
             Some(Err(_)) => return (if starts == chain.len() { "other" } else { "na" }.into(), json!([])),
@@ -124,7 +125,31 @@ pub fn run(out: &mut Out, seed: u64, thorough: bool) {
         let chains: Vec<Vec<u64>> = s.entries.iter().filter(|e| e.ty == TagDataType::Master && e.path.iter().all(|p| matches!(p, PathPart::Id(_))))
             .map(|e| { let mut c: Vec<u64> = e.path.iter().map(|p| match p { PathPart::Id(i) => *i, _ => 0 }).collect(); c.push(e.id); c })
             .filter(|c| c.len() >= 2 && c.len() <= 4).collect();
-        for chain in chains.iter().take(if thorough { 12 } else { 4 }) {
+        // ... plus chains found by letting the writer open masters breadth-first (this reaches masters declared below
+        // placeholders, whose chains no declared path spells out); sampled to keep the volume down
+        let mut chains = chains;
+        {
+            let masters: Vec<u64> = s.entries.iter().filter(|e| e.ty == TagDataType::Master).map(|e| e.id).collect();
+            let mut frontier: Vec<Vec<u64>> = vec![vec![]];
+            for _depth in 0..4 {
+                let mut next: Vec<Vec<u64>> = Vec::new();
+                for c in &frontier {
+                    for m in &masters {
+                        let mut dest: Vec<u8> = Vec::new();
+                        let mut w = TagWriter::new(&mut dest);
+                        let mut ok = true;
+                        for id in c.iter().chain(std::iter::once(m)) {
+                            if !matches!(guarded(|| w.write(&DynTag { id: *id, v: DynVal::M(Master::Start) })), Ok(Ok(()))) { ok = false; break; }
+                        }
+                        if ok { let mut q = c.clone(); q.push(*m); next.push(q); }
+                    }
+                }
+                while next.len() > 10 { let k = rng.below(next.len()); next.swap_remove(k); }
+                for c in &next { if c.len() >= 2 && !chains.contains(c) && s.get(*c.last().unwrap()).map(|e| e.path.iter().any(|p| matches!(p, PathPart::Global(_)))).unwrap_or(false) { chains.push(c.clone()); } }
+                frontier = next;
+            }
+        }
+        for chain in chains.iter().rev().take(if thorough { 16 } else { 6 }) {
             for mask in 0..(1u32 << chain.len()) {
                 if !thorough && n % 3 != 0 && mask.count_ones() < 2 { continue; }
                 let unk: Vec<bool> = (0..chain.len()).map(|k| (mask >> k) & 1 == 1).collect();
@@ -149,7 +174,9 @@ pub fn run(out: &mut Out, seed: u64, thorough: bool) {
                         Err(TagWriterError::UnexpectedTag { tag_id, .. }) => ("unexpected_tag".to_string(), idw(*tag_id)),
                         Err(_) => ("other".to_string(), json!([])),
                     };
-                    let (rv, rid) = reader_verdict(chain, &unk, e.id, is_master, e.ty);
+                    // the reader's verdict only for chains that start at a true root element (otherwise it has not fixed its position yet)
+                    let rooted = s.get(chain[0]).map(|r| r.path.is_empty()).unwrap_or(false);
+                    let (rv, rid) = if rooted { reader_verdict(chain, &unk, e.id, is_master, e.ty) } else { ("na".to_string(), json!([])) };
                     out.ev(json!({"ev":"path","chain":chain.iter().map(|c| idw(*c)).collect::<Vec<_>>(),"unk":unk,"tag":idw(e.id),"tag_unknown":false,
                                   "w":wv,"wid":wid,"r":rv,"rid":rid}));
                 }
